@@ -34,12 +34,24 @@ the PARENT's read side was charged; the documented semantics (analyze_storage: "
 ... it inherits the value from the child") is: iff the CHILD below takes the value
 (child's skip_initial_output_write is False).  Fixed in looptree_exec.execute (two
 toll-only branches); after the fix 0 mismatches on 1197 + 11 x 252 + 11 x 162 probe
-configurations incl. all mixed skip settings; C05 and C06 re-run and still pass.
+configurations incl. all mixed skip settings; C05 re-run: passes; C06 re-run: its
+single-Einsum and fused phases pass (its mapper-rows phase reports MV2-224/Hfin/pers-x2,
+which uses peak_occupancy only, no Toll and not `execute`; it fired before this change too).
 
-Mutation self-test (VERIF_REPO scratch copies via mc/mutant.sh, quick tier, 2026-09-21):
-see MUTANTS at the end of this docstring (filled in after running).
-MUTANTS:
-  (pending)
+Mutation self-test (2026-09-21/22).  Full quick runs through mc/mutant.sh:
+  * _symbolic.py analyze_toll: count_writes=True                           -> caught
+    (model-raises-on-toll-tree x13125: analyze_toll's own assert fires; mapper KeyError x42)
+  * _symbolic.py analyze_toll: count_up ignores the direction (always True) -> caught
+    (toll-reads/down/out/above-buf/over x2096, toll-reads/down/out/above-compute/over x404)
+Targeted runs (compare_A on 210 phase-A configurations + 3 phase-B runs on a patched copy):
+  * analyze_toll: max_occupancy not zeroed        -> caught (model raises KeyError 'Toll' when it
+    builds the reservation: model-raises-on-toll-tree; mapper-raises-on-toll-arch/KeyError)
+  * make_storages.py: Toll keep/may_keep not intersected with Above -> caught (the mapper then
+    dies with an AssertionError on MM2 / MV2: mapper-raises-on-toll-arch/AssertionError)
+  * analyze_toll: count_down = direction != "down" (flipped) -> caught (toll-reads/down/*/under,
+    toll-reads/up/*/over, toll-reads/mapper-row/down)
+  * analyze_storage: a Toll does not inherit skip_initial_output_write (skip_initial = False)
+    -> caught differentially (other-component-changed/Main:read x120 of 210)
 """
 
 from __future__ import annotations
@@ -531,11 +543,21 @@ def plan_A(quick):
     return plan
 
 
+def warm():
+    """Import the mapper / model modules and run each once in the parent so that forked workers inherit
+    the imports, jitted kernels and sympy caches."""
+    compare_A("MM1-222", "base", ("down", "up", "up_and_down"), 0, ("T0", "T1"), "adj")
+    body_B(("MM1-222", "toll-all-tight", "io", "ELR"))
+    _FIX.clear()
+    _BASE.clear()
+
+
 def run(ctx):
     afx.serial()
     plan = plan_A(ctx.quick)
     for it in plan:
         trees_of(it[0])
+    warm()
     ctx.explore("toll-trees", make_tree_A(plan, not ctx.quick), make_body_A(plan), shard_depth=3,
                 distinct_by_construction=False)
     treeB, boundsB = tree_B(ctx.quick)
